@@ -651,7 +651,7 @@ fn run_values(ctx: &mut Ctx) {
                 ctx.case(&desc, |ctx| check_control(ctx, &m, &desc));
             }
         }
-        for filler in 1..=60usize {
+        for filler in (1..=60usize).chain(280..=300).chain(536..=560).chain(790..=820) {
             if !ctx.mine() {
                 continue;
             }
@@ -744,7 +744,23 @@ fn run_values(ctx: &mut Ctx) {
                         }
                         ctx.states += 1;
                         ctx.transitions += 1;
-                        let data = ramp(plen);
+                        // payload contents: distinct octets; all zero; all ff; octets that look
+                        // like a control header followed by zeros (selected by the id variant so
+                        // that the product does not grow)
+                        let data: Vec<u8> = match (ids.0, plen) {
+                            (0, _) => vec![0u8; plen],
+                            (0xffff, _) => vec![0xffu8; plen],
+                            (_, n) if ids.1 == 0xffff => {
+                                let mut d = vec![0u8; n];
+                                for (i, b) in [0xc8u8, 0x02, 0x00, 0x0c].iter().enumerate() {
+                                    if i < n {
+                                        d[i] = *b;
+                                    }
+                                }
+                                d
+                            }
+                            _ => ramp(plen),
+                        };
                         let offsets: Vec<Option<u16>> = vec![None, Some(0), Some(1), Some((plen - 1) as u16), Some(plen.min(0xffff) as u16), Some(0xffff)];
                         for offset in offsets {
                             for lsel in 0..3 {
